@@ -35,6 +35,11 @@ def proof_step(prop, tier='quick'):
     cone = lib.coq_cone(vfile)
     bad, nthm, nqed = lib.coq_audit(cone)
     info['cone'] = cone
+    import re as _re
+    try:
+        info['theorems'] = _re.findall(r'^(?:Theorem|Corollary)\s+(\w+)', lib.strip_comments(open(os.path.join(lib.COQ, vfile)).read()), _re.M)
+    except OSError:
+        info['theorems'] = []
     info['obligations'] = nthm
     info['log'] = out[-4000:]
     # Print Assumptions output is produced only when the property file is (re)compiled: keep a copy
@@ -139,7 +144,7 @@ def main():
     cov = evidence['coverage']
     cov.update({'obligations': max(1, pinfo['obligations']), 'discharged': pinfo['discharged'],
                 'checker_cmd': 'make -C coq %so  (coqc 8.16.1, full .vo build) + Print Assumptions + forbidden-token scan' % pinfo['file'],
-                'trusted_base': TRUSTED_BASE, 'proof_cone': pinfo.get('cone', []),
+                'trusted_base': TRUSTED_BASE, 'proof_cone': pinfo.get('cone', []), 'property_theorems': pinfo.get('theorems', []),
                 'print_assumptions': pinfo['assumptions'], 'coqchk': pinfo.get('coqchk', 'not run in the quick tier')})
     evidence['assumptions'] = list(spec.get('assumes', []))
 
